@@ -137,6 +137,31 @@ pub fn compile_corpus() -> Vec<Spec> {
         )],
         ..Default::default()
     });
+    // a schema that contains itself through a list and whose type name differs from its own name (HTTPNode -> HttpNode)
+    v.push(Spec {
+        components: vec![
+            ("HTTPNode".into(), s_obj(vec![("value", inl(s_int())), ("children", inl(s_arr(rf("HTTPNode"))))], &["value"])),
+            ("FAQSection".into(), s_obj(vec![("title", inl(s_string())), ("sub", inl(s_arr(rf("FAQSection"))))], &[])),
+        ],
+        paths: vec![
+            item("/nodes", vec![op("get", Some("getNode"), vec![(200, Some(rf("HTTPNode")))])]),
+            item("/faq", vec![op("get", Some("getFaq"), vec![(200, Some(rf("FAQSection")))])]),
+        ],
+        ..Default::default()
+    });
+    // allOf over an ordinary base and a NULLABLE base: both are read and written at the same level
+    v.push(Spec {
+        components: vec![
+            ("Timestamps".into(), s_obj(vec![("created_at", inl(s_string())), ("updated_at", inl(s_string()))], &["created_at"])),
+            ("Audit".into(), Schema { nullable: true, ..s_obj(vec![("actor", inl(s_string())), ("reason", inl(s_string()))], &["actor"]) }),
+            ("Refund".into(), Schema {
+                kind: Kind::AllOf(vec![rf("Timestamps"), rf("Audit"), inl(s_obj(vec![("amount", inl(s_int())), ("note", inl(s_string()))], &["amount"]))]),
+                ..Default::default()
+            }),
+        ],
+        paths: vec![item("/refunds", vec![op("get", Some("getRefund"), vec![(200, Some(rf("Refund")))])])],
+        ..Default::default()
+    });
     // oauth2
     v.push(Spec {
         paths: vec![item("/me", vec![op("get", Some("me"), vec![(200, None)])])],
